@@ -38,13 +38,23 @@ func (mh *MessageHandler) FromNet(p peer.ID, r io.Reader) (message.GraphSyncMess
 
 // FromMsgReader can deserialize a DAG-CBOR message into a GraphySyncMessage
 func (mh *MessageHandler) FromMsgReader(_ peer.ID, r msgio.Reader) (message.GraphSyncMessage, error) {
+	// io.EOF is reserved for a stream that ends cleanly between two messages
+	if _, err := r.NextMsgLen(); err != nil {
+		return message.GraphSyncMessage{}, err
+	}
 	msg, err := r.ReadMsg()
 	if err != nil {
+		if err == io.EOF {
+			err = io.ErrUnexpectedEOF // the stream ended inside a message
+		}
 		return message.GraphSyncMessage{}, err
 	}
 
 	ipldGSM, err := ipldbind.BindnodeRegistry.TypeFromBytes(msg, (*ipldbind.GraphSyncMessageRoot)(nil), dagcbor.Decode)
 	if err != nil {
+		if err == io.EOF {
+			err = io.ErrUnexpectedEOF // a complete frame whose content ends early is malformed
+		}
 		return message.GraphSyncMessage{}, err
 	}
 	return mh.fromIPLD(ipldGSM.(*ipldbind.GraphSyncMessageRoot))
